@@ -21,6 +21,8 @@ class Ctx:
         self.pc = []
         self.solver = z3.Solver()
         self.solver.set("timeout", timeout_ms)
+        self.timeout_ms = timeout_ms
+        self.feas_timeout_ms = 3000
         self.stats = stats or Stats()
         self.bounds = dict(vec=2, **(bounds or {}))
         self.nfresh = 0
@@ -85,9 +87,14 @@ class Ctx:
     def feasible(self, c):
         if c is True: return self._pc_ok()
         if c is False: return False
+        self.solver.set("timeout", self.feas_timeout_ms)
         r = self.check(c)
+        self.solver.set("timeout", self.timeout_ms)
         if r == z3.unknown:
-            raise Unsupported("solver returned unknown on a branch feasibility query")
+            # over-approximate: keep the branch (sound for verification; a spurious path can only produce a counterexample
+            # that fails the native replay gate, never a missed behaviour)
+            self.stats.unknown_feasibility = getattr(self.stats, "unknown_feasibility", 0) + 1
+            return True
         return r == z3.sat
 
     def _pc_ok(self):
